@@ -77,9 +77,9 @@ CHECKS = {
    text="TLC checks Heartbeat.tla exhaustively for (ivl,timeout) in {(1,1),(1,2),(1,3),(2,1),(2,3)} and a ZMTP/2.0 session over a bounded "
         "clock: PingWindow, PingAfterIdle, NotOverdue, ClosedOnlyWhenDead, DeadDetected (an unanswered PING is never re-armed: the deadline of the real engine is read back after every tick), NoHbOnV2, WholeChunks, DataFifo, PongEcho. "
         "Simulated timelines are replayed on a real engine (on_tick on the model clock) and the real EgressBuffer with partial "
-        "writes; PING contexts of 0/1/16/17 bytes; the bytes leaving the buffer are parsed back into whole frames. At socket level a raw peer completes the handshake and then stays silent, answers every PING, or streams data without answering (and a ZMTP/2.0 peer; HEARTBEAT_IVL / TIMEOUT 200/300, 300/150 and 100/700): PING times, contexts and the end of the connection are validated by TLC against the clauses of Heartbeat.tla (Trace_Heartbeat.tla).",
+        "writes; PING contexts of 0/1/16/17 bytes; the bytes leaving the buffer are parsed back into whole frames. At socket level a raw peer completes the handshake and then stays silent, answers every PING, or streams data without answering (and a ZMTP/2.0 peer; HEARTBEAT_IVL / TIMEOUT 200/300, 300/150 and 100/700; Tokio and io_uring session backends): PING times, contexts and the end of the connection are validated by TLC against the clauses of Heartbeat.tla (Trace_Heartbeat.tla).",
    note="The tokio interval timer is assumed to tick every HEARTBEAT_IVL; socket-level timing is checked with slack only. "
-        "io_uring backend: no heartbeat clock (known finding, see C20).",
+        "The io_uring worker loop wakes at least every 128 ms, which is the resolution of its heartbeat clock.",
    technique="TLA+ spec (Heartbeat.tla) + TLC; TLC timelines replayed on the real engine and egress buffer; TLC trace validation (Trace_Heartbeat.tla) of socket-level runs against a raw peer",
    design_ref="DESIGN.md 5 (C19)"),
  "C01": dict(
@@ -140,7 +140,7 @@ CHECKS = {
         "messages reach only the addressed peer unchanged (replies of every shape: empty first, middle, only frame), unroutable -> "
         "HostUnreachable / silent drop.",
    note="Socket-level order of connect / first message / identity announcement is whatever the runtime produces (observed, not "
-        "enumerated). Known finding C11-u (io_uring ROUTER ignores the peer's socket type).",
+        "enumerated).",
    technique="TLA+ spec (Router.tla) + TLC exhaustive history export replayed on the real RouterMap; recorded socket histories checked against the property",
    design_ref="DESIGN.md 4.6, 5 (C11)"),
  "C02": dict(
